@@ -158,6 +158,35 @@ def gen_exchange(r, big=False):
     return dict(ctx=c, req=req, cseq=cseq, resp=resp, sendpiv=sendpiv, sseq=sseq)
 
 
+# options the live server / client library act on themselves (proxying, block-wise transfer,
+# No-Response, conditional requests): kept out of the live exchanges, where the oracle is "the
+# application handler sees exactly this message"
+LIVE_SKIP_REQ = {1, 5, 16, 23, 27, 28, 39, 60, 258}
+LIVE_SKIP_RESP = {23, 27, 28, 60}
+
+
+def gen_live_exchange(r):
+    x = gen_exchange(r, big=False)
+    x["req"]["opts"] = [o for o in x["req"]["opts"] if o[0] not in LIVE_SKIP_REQ]
+    x["resp"]["opts"] = [o for o in x["resp"]["opts"] if o[0] not in LIVE_SKIP_RESP]
+    if not any(n == 6 for n, _ in x["req"]["opts"]):
+        x["resp"]["opts"] = [o for o in x["resp"]["opts"] if o[0] != 6]
+    # coap_send refuses tokens above 8 bytes unless extended tokens were negotiated
+    x["req"]["token"] = x["req"]["token"][:8]
+    x["resp"]["token"] = x["req"]["token"]
+    # FETCH / PATCH / iPATCH without Content-Format are answered 4.15 by the library itself
+    if x["req"]["code"] > 4:
+        x["req"]["code"] = r.choice([1, 2, 3, 4])
+    x["sendpiv"] = 0
+    x["live"] = True
+    return x
+
+
+def live_line(cmd, x):
+    return " ".join([cmd] + ctx_tokens(x["ctx"]) + msg_tokens(x["req"]) + [str(x["cseq"])] +
+                    msg_tokens(x["resp"]) + [str(x["sseq"])])
+
+
 def line_of(x):
     return " ".join(["oscx"] + ctx_tokens(x["ctx"]) + msg_tokens(x["req"]) + [str(x["cseq"])] +
                     msg_tokens(x["resp"]) + [str(x["sendpiv"]), str(x["sseq"])])
@@ -233,3 +262,68 @@ def locate(dg):
             res["piv"] = bytes(v[1:1 + n])
         i += l
     return res
+
+
+def structured_variants(dg, is_request):
+    """re-spellings / targeted changes of the OSCORE option value (the bit flips cannot insert or
+    remove bytes): -> list of (tag, datagram, must_reject).  must_reject=False marks spellings that
+    RFC 8613 itself cannot tell from the original (they are only compared with the reference)."""
+    loc = locate(dg)
+    if not loc or not loc.get("opt"):
+        return []
+    a, b = loc["opt"]
+    pos = loc["optpos"]
+    if a != pos + 1:            # extended delta/length header: keep the generator simple
+        return []
+    d = dg[pos] >> 4
+    v = bytes(dg[a:b])
+    out = []
+
+    def put(tag, nv, must):
+        if len(nv) < 13:
+            out.append((tag, dg[:pos] + bytes([(d << 4) | len(nv)]) + nv + dg[b:], must))
+
+    if not v:
+        put("zeroflag", b"\x00", True)
+        return out
+    n = v[0] & 7
+    h = v[0] & 0x10
+    k = v[0] & 0x08
+    if not k:
+        put("trailing", v + b"\xaa", True)
+    put("reserved", bytes([v[0] | 0x40]) + v[1:], True)
+    if 1 <= n <= 4:
+        # same nonce; the AAD of a request contains the Partial IV bytes, that of a response does not
+        put("pivzero", bytes([v[0] + 1]) + b"\x00" + v[1:], is_request)
+    if k and not h:
+        put("emptyctx", bytes([v[0] | 0x10]) + v[1:1 + n] + b"\x00" + v[1 + n:], False)
+    if k and len(v) > 1 + n + (1 + v[1 + n] if h else 0):
+        put("kidshort", v[:-1], True)
+    if n >= 1:
+        put("pivbyte", v[:n] + bytes([v[n] ^ 0x01]) + v[n + 1:], True)
+    return out
+
+
+# ---- several requests / responses on one token (the request binding is refreshed) ----
+SEQ_PATTERNS = [
+    ["Q0", "R10", "R10", "Q1", "R00"],          # register, notifications, cancel (RFC 7641 3.6), final response
+    ["Q0", "R10", "Q0", "R00"],                 # re-registration answered without Observe / Partial IV
+    ["Q0", "R10", "Q0", "R10", "R01", "Q1", "R01"],
+    ["Q-", "Q-", "R00"],                        # a second request on the token before the response
+    ["Q0", "Q1", "R00"],
+    ["Q0", "R10", "Q1", "R00", ],
+    ["Q0", "R11", "Q0", "Q0", "R00"],
+    ["Q-", "R00", "Q-", "R01", "Q0", "R10", "Q-", "R00"],
+]
+
+
+def gen_sequence(r):
+    c = gen_ctx(r)
+    token = rb(r, r.choice([1, 2, 4, 8]))
+    steps = list(r.choice(SEQ_PATTERNS))
+    if r.random() < 0.3:        # random tail, every response still preceded by a request
+        for _ in range(r.randint(1, 4)):
+            steps += [r.choice(["Q-", "Q0", "Q1"]), r.choice(["R00", "R01", "R10"])]
+    cseq = r.choice([0, 1, 254, 255, 65535, (1 << 32) - 2, r.randint(0, 1 << 30)])
+    sseq = r.choice([0, 1, 254, 255, 65535, (1 << 24) - 2, r.randint(0, 1 << 30)])
+    return " ".join(["oscseq"] + ctx_tokens(c) + [tok(token), str(r.choice([0, 1])), str(cseq), str(sseq)] + steps)
